@@ -27,3 +27,24 @@ def check(prop, tier, replay_path):
         what="the real chunk receiver did something Chunks.tla does not allow (Add result / tracked streams / directories / notifications / finalized bytes)",
         assumptions=["chunk size lowered to 1 KB (package variable) so that small snapshots have several chunks per file; GC interval/timeout and slot count lowered likewise",
                      "whether the validator notices a corrupted main-file chunk at once or at the end is left open by the specification"])
+
+
+def check_c16_received(prop, tier, replay_path):
+    """second engine of C16: durability of finalized received snapshots on the real chunk receiver"""
+    if tier == "thorough":
+        batches = [{"first": k * 1500, "traces": 1500, "steps": 90} for k in range(16)]
+    else:
+        batches = [{"first": k * 300, "traces": 300, "steps": 60} for k in range(8)]
+    return tvcheck.tv_run(
+        prop, tier, replay_path,
+        harness_dirs=["transport"], pkg="internal/transport", test="TestVerifCksim",
+        trace_module="ChunksDurableTrace", tag="CD-REPORT", count_tag="CD-COUNT", batches=batches,
+        env_of=lambda b, seed, out: {"VERIF_OUT": out, "VERIF_SEED": seed, "VERIF_FIRST": b["first"],
+                                     "VERIF_TRACES": b["traces"], "VERIF_STEPS": b["steps"]},
+        mc=[], stats_tag="CKSIM-STATS", merge_into_existing=True, build_name="c15",
+        sig_of=lambda op, f: "C16:%s" % op,
+        what="a received snapshot directory that already carried its final name lost a file (snapshot file, flag "
+             "file or external file) in a power loss",
+        assumptions=["receiving side with external files (not producible through NodeHosts on the in-memory file "
+                     "system): the real chunk receiver on a strict in-memory file system, power loss at the end of "
+                     "each trace, every finalized directory compared file by file before / after"])
